@@ -23,8 +23,27 @@ fn gen_layout(rng: &mut Rng, n_axes: usize, d: i64) -> (Vec<Vec<i64>>, &'static 
         2 => vec![0, d / 4, d / 2, 3 * d / 4, d],
         _ => (-4..=4).map(|k| k * d / 4).collect(),
     };
-    match rng.below(6) {
-        0 => {
+    match rng.below(7) {
+        6 if n_axes >= 2 && d >= 8 => {
+            // several masters inside one quadrant at unrelated (not grid-aligned) positions, plus the axis ends:
+            // an earlier master then lies strictly inside a later master's box and is cut away (seed C07-2)
+            kind = "interior-cluster";
+            let signs: Vec<i64> = (0..n_axes).map(|_| if rng.chance(3, 4) { 1 } else { -1 }).collect();
+            for a in 0..n_axes {
+                if rng.chance(3, 4) {
+                    let mut l = vec![0; n_axes];
+                    l[a] = signs[a] * d;
+                    locs.push(l);
+                }
+            }
+            for _ in 0..rng.range(3, 6) {
+                locs.push((0..n_axes).map(|a| signs[a] * rng.range(1, d.min(64))* (d / d.min(64))).collect());
+            }
+            if rng.chance(1, 2) {
+                locs.push((0..n_axes).map(|a| signs[a] * d).collect());
+            }
+        }
+        0 | 6 => {
             kind = "on-axis";
             for a in 0..n_axes {
                 for _ in 0..rng.range(1, 3) {
